@@ -17,6 +17,7 @@ from rules import a64hsem as T
 from rules import rvhsem as V
 from rules.a64hsem import Lin, M64, add, sub, mul, neg, scale, xor, const, atom, hi, ror, amount
 import os as _os
+from report import memoised
 
 STRICT_FAMILY = bool(_os.environ.get('RXVERIF_STRICT_FAMILY'))
 
@@ -370,6 +371,7 @@ def expected(name, d, s, sh, imm):
     return T.expected(name, d, s, sh, imm, None)
 
 
+@memoised('X86-HSEM')
 def rule_hsem(ctx, R):
     if STRICT_FAMILY:
         R.note('rule_hsem skipped: RXVERIF_STRICT_FAMILY=1 (emitted-code / executor evaluation on terms switched off, see DESIGN.md 9.2)')
@@ -509,6 +511,7 @@ def ss_cases(types):
                     yield name, d, s, sh, 0x12345678
 
 
+@memoised('X86-SS-HSEM')
 def rule_ss_hsem(ctx, R):
     if STRICT_FAMILY:
         R.note('rule_ss_hsem skipped: RXVERIF_STRICT_FAMILY=1 (emitted-code / executor evaluation on terms switched off, see DESIGN.md 9.2)')
@@ -703,6 +706,7 @@ MEM_HANDLERS = ('IADD_M', 'ISUB_M', 'IMUL_M', 'IMULH_M', 'ISMULH_M', 'IXOR_M', '
 MEM_IMMS = (0, 8, 0x7FF8, 0x3FF8, 0x4000, 0x1FFFF8, 0x200000, 0x7FFFFFFF, 0x80000000, 0xFFFFFFF8, 0xFFFFFFFF, 0x12345678)
 
 
+@memoised('X86-MEM-HSEM')
 def rule_mem_hsem(ctx, R):
     if STRICT_FAMILY:
         R.note('rule_mem_hsem skipped: RXVERIF_STRICT_FAMILY=1 (emitted-code / executor evaluation on terms switched off, see DESIGN.md 9.2)')
@@ -790,6 +794,7 @@ def rule_mem_hsem(ctx, R):
 # ---------------------------------------------------------------------------------------------------------------------------
 # CFROUND: bit routing
 
+@memoised('X86-CFR-BITS')
 def rule_cfround(ctx, R, FI):
     if STRICT_FAMILY:
         R.note('rule_cfround skipped: RXVERIF_STRICT_FAMILY=1 (emitted-code / executor evaluation on terms switched off, see DESIGN.md 9.2)')
@@ -973,6 +978,7 @@ def fp_show(t):
     return '%s(%s)' % (t[0], ', '.join(fp_show(x) if isinstance(x, tuple) else str(x) for x in t[1:]))
 
 
+@memoised('X86-FP-HSEM')
 def rule_fp_hsem(ctx, R):
     if STRICT_FAMILY:
         R.note('rule_fp_hsem skipped: RXVERIF_STRICT_FAMILY=1 (emitted-code / executor evaluation on terms switched off, see DESIGN.md 9.2)')
@@ -1068,6 +1074,7 @@ def rule_fp_hsem(ctx, R):
 # ---------------------------------------------------------------------------------------------------------------------------
 # CBRANCH
 
+@memoised('X86-CBR-HSEM')
 def rule_cbranch(ctx, R):
     if STRICT_FAMILY:
         R.note('rule_cbranch skipped: RXVERIF_STRICT_FAMILY=1')
